@@ -4,7 +4,7 @@
    str() of a float timestamp hold no line feed (fam_clean / fam_clean_om; re-checked per case by the harness).
    Names, label names, label values, help, units, exemplar labels are ARBITRARY strings. *)
 From V Require Import lib.PyBase lib.PyStr model.Utils model.Validation model.Expo model.Graphite
-  proofs.EscapeProofs proofs.LineProofs proofs.GrammarProofs.
+  proofs.EscapeProofs proofs.LineProofs proofs.GrammarProofs proofs.DocRoundTrip proofs.DocGrammar proofs.DocGrammarOM.
 From V Require Import model.LineGrammar.
 Open Scope N_scope.
 
@@ -70,3 +70,71 @@ Example C05_example :
                                s_value := FFin true (s2l "1.0"); s_ts_ms := None; s_ts_om := None; s_ex := None |}] |} in
   fam_clean f /\ nlf (text_render [f]) = 3%nat.
 Proof. cbv zeta. split; [split; [reflexivity|repeat constructor]|vm_compute; reflexivity]. Qed.
+
+(* ================= whole documents =================
+   The text exposition is exactly the LF-terminated lines HELP, TYPE, one line per sample, block after block
+   (a family's main block, then one gauge block per kind of _created/_gcount/_gsum series present), every line
+   free of line feeds and accepted by the independent grammar: text_doc_ok is the grammar's own document recogniser.
+   Hypotheses (fam_grammar_ok): the family type is one of the eight type words (the Metric constructor's check) and
+   the two facts about CPython's float rendering per sample (sample_clean, value_token; re-checked per case by the
+   harness).  Names, label names, label values and help texts are ARBITRARY strings. *)
+Theorem C05_text_document_lines : forall fams, Forall fam_grammar_ok fams ->
+  text_render fams = unlines (flat_map block_lines (flat_map blocks_of fams)) /\
+  Forall (fun l => nlf l = 0%nat /\ text_line_ok l = true) (flat_map block_lines (flat_map blocks_of fams)).
+Proof. exact (fun fams H => conj (text_render_unlines fams) (text_render_lines_ok fams H)). Qed.
+
+Theorem C05_text_document_in_grammar : forall fams, Forall fam_grammar_ok fams -> text_doc_ok (text_render fams) = true.
+Proof. exact text_render_doc_ok. Qed.
+
+(* OpenMetrics: a sample line - series, value, optional timestamp (int, sec.nanos or float token), optional exemplar
+   with arbitrary label strings - is accepted by the grammar whatever the names and label strings are *)
+Theorem C05_om_sample_line_in_grammar : forall ftype fname s line,
+  om_sample_tokens_ok s -> om_sample_line true ftype fname s = Ok line ->
+  exists body, line = body ++ [LF] /\ is_sample_line_om body = true.
+Proof. exact om_sample_line_in_grammar. Qed.
+
+(* a family is written as HELP, TYPE, UNIT exactly when it has a unit, then one line per sample *)
+Theorem C05_om_family_lines : forall f out, fam_grammar_ok_om f -> om_family true f = Ok out ->
+  exists bodies, length bodies = length (f_samples f) /\
+    Forall (fun b => nlf b = 0%nat /\ is_sample_line_om b = true) bodies /\
+    out = unlines (om_help_line (f_name f) (f_doc f) :: om_type_line (f_name f) (f_type f)
+                   :: (match f_unit f with [] => [] | u => [om_unit_line (f_name f) u] end) ++ bodies).
+Proof. exact om_family_lines_ok. Qed.
+
+(* the whole OpenMetrics document is accepted by the grammar's document recogniser: every line a HELP / TYPE / UNIT /
+   sample line, and exactly one EOF line, the last (the EOF line is none of the other kinds) *)
+Theorem C05_om_document_in_grammar : forall fams out, Forall fam_grammar_ok_om fams -> om_render true fams = Ok out ->
+  om_doc_ok out = true /\
+  exists ls, out = unlines (ls ++ [L_EOF]) /\ Forall (fun l => nlf l = 0%nat /\ om_line_ok l = true) ls /\ ~ In L_EOF ls.
+Proof. exact om_render_doc_ok. Qed.
+
+(* non-vacuity: a family with hostile strings everywhere, a unit, a nanosecond timestamp and an exemplar with hostile
+   label strings satisfies the hypotheses and is exposed as 5 lines *)
+Example C05_document_example :
+  let hostile := [LF; DQ; BS; 32; 35; 123; 125; 44; LF] in
+  let s := {| s_name := hostile; s_labels := [(hostile, hostile)]; s_value := FFin true (s2l "1.0"); s_ts_ms := Some 1500%Z;
+              s_ts_om := Some (TsNanos 1 500000000);
+              s_ex := Some {| ex_labels := [(hostile, hostile)]; ex_value := FFin true (s2l "2.5"); ex_ts := Some (TsInt 7) |} |} in
+  let f := {| f_name := hostile; f_doc := hostile; f_type := s2l "gauge"; f_unit := hostile; f_samples := [s] |} in
+  fam_grammar_ok f /\ fam_grammar_ok_om f /\ text_doc_ok (text_render [f]) = true /\
+  exists out, om_render true [f] = Ok out /\ om_doc_ok out = true /\ nlf out = 5%nat.
+Proof.
+  cbv zeta.
+  assert (V1 : value_token (go_string (FFin true (s2l "1.0")))).
+  { right; right; right. vm_compute. repeat split; try discriminate. repeat constructor. }
+  assert (V2 : value_token (go_string (FFin true (s2l "2.5")))).
+  { right; right; right. vm_compute. repeat split; try discriminate. repeat constructor. }
+  split; [|split; [|split]].
+  - split; [reflexivity|]. constructor; [|constructor]. split; [|exact V1]. split; reflexivity.
+  - split; [reflexivity|]. constructor; [|constructor]. split.
+    + repeat split; reflexivity.
+    + split; [exact V1|]. split; [exact I|]. split; [exact V2|exact I].
+  - vm_compute. reflexivity.
+  - eexists. split; [vm_compute; reflexivity|]. split; vm_compute; reflexivity.
+Qed.
+
+Print Assumptions C05_text_document_lines.
+Print Assumptions C05_text_document_in_grammar.
+Print Assumptions C05_om_sample_line_in_grammar.
+Print Assumptions C05_om_family_lines.
+Print Assumptions C05_om_document_in_grammar.
